@@ -99,7 +99,9 @@ def work(part, chunk):
         label = dict(spec=spec, cyclic=cyc)
         r = sync_case(part, spec, label)
         part.coverage["sync_" + r.split(":")[0]] = part.coverage.get("sync_" + r.split(":")[0], 0) + 1
-        WP.e3_search(part, label, spec, {}, judge, bound=bound, max_execs=cap, faults=True, nontrivial=cyc or len(edges) >= 2)
+        k = spec.get("max_concurrent")
+        WP.e3_search(part, label, spec, {}, judge, bound=bound, max_execs=cap, faults=(k is None), nontrivial=cyc or len(edges) >= 2 or bool(k),
+                     submitter_kwargs=dict(max_concurrent=k) if k else None)
 
 
 def run(ctx):
@@ -115,6 +117,10 @@ def run(ctx):
                 if ctx.thorough and n <= 3:
                     bound, cap = 2, 600
                 items.append((spec, n, edges, bound, cap))
+    # throttled submissions: the concurrency limit must never leave runnable jobs waiting forever
+    for m, k in ((4, 2), (5, 2), (5, 3)) if ctx.thorough else ((4, 2),):
+        spec, _ = WP.indep(m)
+        items.append((dict(spec, max_concurrent=k), m, [], 2, 1500 if ctx.thorough else 500))
     ctx.rule = ("every wiring of n nodes (input a from a constant or any node incl. later ones/itself via post-assignment, "
                 "optional second input on the last node), typed and untyped; each under the debug worker and under all "
                 "virtual-worker schedules with <= bound deviations incl. die(j) faults; non-trivial = cyclic or >=2 edges")
@@ -130,4 +136,6 @@ def replay(ctx, case):
     if case.get("worker") == "debug":
         sync_case(part, case["spec"], dict(spec=case["spec"]))
         return part.violations[0][2] if part.violations else None
-    return WP.replay_one(part, dict(spec=case["spec"]), case["spec"], {}, judge, case["schedule"], faults=True)
+    k = case["spec"].get("max_concurrent")
+    return WP.replay_one(part, dict(spec=case["spec"]), case["spec"], {}, judge, case["schedule"], faults=(k is None),
+                         submitter_kwargs=dict(max_concurrent=k) if k else None)
